@@ -62,6 +62,8 @@ def sequences(tier, rng):
             else:
                 d = ro_delete(10 + j)
             t = to_text(d)
+            if rng.random() < 0.1:
+                t = gens.mutate_doc(rng, t, state, n=rng.randrange(1, 3))       # a structural neighbour of the message
             docs.append(t)
             res = impl.run_add(state, t)
             if 'tree' in res and not res.get('err'):
